@@ -1823,8 +1823,30 @@ Slices:
                 ret = append(ret, '\\')
                 continue Slices
             case 'x':
-                var bt, _ = hex.DecodeString(string(slice[2:]))
+                // \xHH: exactly two hexadecimal digits select one byte. The
+                // scanner attaches up to four digits to the sequence; whatever
+                // follows the first two is ordinary text.
+                if len(slice) < 4 {
+                    diags = append(diags, &hcl.Diagnostic{
+                        Severity: hcl.DiagError,
+                        Summary:  "Invalid escape sequence",
+                        Detail:   "The \\x escape sequence must be followed by two hexadecimal digits.",
+                        Subject:  rng.Ptr(),
+                    })
+                    break TokenType
+                }
+                bt, err := hex.DecodeString(string(slice[2:4]))
+                if err != nil {
+                    diags = append(diags, &hcl.Diagnostic{
+                        Severity: hcl.DiagError,
+                        Summary:  "Invalid escape sequence",
+                        Detail:   "The \\x escape sequence must be followed by two hexadecimal digits.",
+                        Subject:  rng.Ptr(),
+                    })
+                    break TokenType
+                }
                 ret = append(ret, bt...)
+                ret = append(ret, slice[4:]...)
                 continue Slices
             case 'u', 'U':
                 if slice[1] == 'u' && len(slice) != 6 {
